@@ -135,6 +135,9 @@ func (sh *shape) walk(v *ds.VMValue, depth int, onPath, seen map[any]bool) {
 		sh.lazy = append(sh.lazy, v)
 	case ds.VMTypeNativeFunction, ds.VMTypeNativeObject:
 		sh.Native = true
+	case ds.VMTypeInt, ds.VMTypeString, ds.VMTypeNull:
+	default:
+		sh.Native = true // `this` and whatever else has no JSON form: like a native value, an error or a faithful round trip
 	}
 }
 
@@ -411,10 +414,10 @@ func checkCase(c Case, s *rt.Section) (*rt.Failure, info) {
 		sh = inspectMap(A.Attrs)
 	}
 	in.depth, in.funcs, in.comps = sh.Depth, sh.Funcs, sh.Comps
-	if sh.Native {
-		s.Discard("native-value-in-store") // bound methods and built-ins are outside the property's value list
-		return nil, in
-	}
+	// built-in functions, bound methods (x = [1,2].push) and `this` are not in the property's list of values; a store
+	// that holds one either refuses to serialise or round-trips faithfully (a built-in by its name): never an invalid
+	// document, never a silently different value. Follow-up programs are not compared for such stores.
+	exotic := sh.Native
 	tag := func(sig string) string { return sig }
 	if sh.Shared && !sh.Cyclic {
 		if !c.ReadOnly {
@@ -461,6 +464,11 @@ func checkCase(c Case, s *rt.Section) (*rt.Failure, info) {
 		}
 		return nil, in
 	}
+	if err != nil && exotic {
+		s.Class("store-with-native-value:refused")
+		in.judged = true
+		return nil, in
+	}
 	if err != nil {
 		if sh.Shared && isCycleErr(err) {
 			return s.NewFailure("snapshot", sigDag, c, "ToJSON: "+err.Error()+"   store: "+clip(before, 400), "a document: the store has shared containers but no reference cycle"), in
@@ -491,6 +499,10 @@ func checkCase(c Case, s *rt.Section) (*rt.Failure, info) {
 	// (a) structurally equal store, and a second round trip gives the same document up to key order
 	if got := vmx.AttrsRepr(B); got != before {
 		return s.NewFailure("roundtrip", tag("c09:roundtrip"), c, firstDiff(got, before)+"\ndocument: "+clip(string(doc), 600), "restored store == original store"), in
+	}
+	if exotic {
+		s.Class("store-with-native-value:round-trips")
+		return nil, in
 	}
 	doc2, err, pi := snapshotStore(B, c.Mode)
 	if pi != nil || err != nil {
